@@ -1,12 +1,14 @@
 /-
 C10 — every signing terminates: success or bounded-retry failure; idle members penalised.
 Model: Model/Signing.lean.  Lemmas: Lemmas/Signing.lean, Lemmas/SigningInv.lean.
-STATUS: the per-step theorems below are proved for all states; the invariant `SInv` (which makes the
-end-block theorems unconditional over whole histories) is proved preserved by SubmitSignature
-(`submit_sinv`); its preservation by the end-blocker is the missing part — theorems that need it carry
-the suffix `_partial` and say what they assume.
+The per-step theorems are proved for all states; the history theorems (`final_status_absorbing`,
+`attempt_only_grows`, `success_only_by_aggregating_a_complete_set`, `complete_set_succeeds_at_next_endblock`) rest on the
+invariant `HInv` of Lemmas/SigningHist.lean, proved preserved by EVERY operation including the end-blocker
+(`history_hinv`).  Not proved: liveness in the sense "a WAITING signing always has a scheduled expiry" (it needs every
+committee to assign at least one member, which is the sampler's contract — C09 — and is monitored).
 -/
-import BandVerif.Lemmas.SigningInv
+import BandVerif.Lemmas.SigningHist
+import BandVerif.Props.C05
 
 namespace C10
 open BandVerif.Signing
@@ -140,5 +142,168 @@ example : (initiate demo 1 [1] 10).2 = Err.ok := by decide
 example : ((initiate demo 1 [1] 10).1.attempts 1 1).map (·.expiredHeight) = some 12 := by decide
 example : (submit (initiate demo 1 [1] 10).1 1 1 true true).2 = Err.ok := by decide
 example : (submit (initiate demo 1 [1] 10).1 1 2 true true).2 = Err.notAssigned := by decide
+
+/-! ## whole histories -/
+
+/-- the sampler's contract used here (C09): committees have distinct members -/
+def OpOk : C05.Op → Prop
+  | .request _ _ _ c _ => c.Nodup
+  | .endBlock c _ _ => ∀ i, (c i).Nodup
+  | _ => True
+
+theorem step_hinv (s : State) (op : C05.Op) (h : HInv s) (ok : OpOk op) : HInv (C05.apply s op) := by
+  cases op with
+  | submitDE m k =>
+    simp only [C05.apply, enqueue]
+    split
+    · exact h
+    · exact hinv_of_frame _ _ h rfl rfl rfl rfl rfl rfl
+  | resetDE m => exact hinv_of_frame _ _ h rfl rfl rfl rfl rfl rfl
+  | request a b c d e => exact request_hinv s a b c d e ok h
+  | submit a b c d => exact submit_hinv s a b c d h
+  | endBlock c ht n => exact endBlock_hinv s c ht n ok h
+  | activate m n =>
+    simp only [C05.apply, activate]
+    split
+    · exact h
+    · split
+      · exact h
+      · split
+        · exact h
+        · exact hinv_of_frame _ _ h rfl rfl rfl rfl rfl rfl
+  | setParams p a d f => exact hinv_of_frame _ _ h rfl rfl rfl rfl rfl rfl
+
+/-- the invariant holds after EVERY history of DE submissions, resets, requests, signature submissions, end-blocks
+    (with arbitrary heights, times and committees), activations and parameter changes -/
+theorem history_hinv (ops : List C05.Op) (s : State) (h : HInv s) (ok : ∀ op ∈ ops, OpOk op) : HInv (ops.foldl C05.apply s) := by
+  induction ops generalizing s with
+  | nil => exact h
+  | cons op rest ih =>
+    exact ih _ (step_hinv s op h (ok op (List.mem_cons_self ..))) (fun o ho => ok o (List.mem_cons_of_mem _ ho))
+
+/-- what one operation can do to an existing signing record: nothing; SUCCESS by aggregation of a pending (complete)
+    set; or, for a WAITING signing, a retry (attempt+1, WAITING) or FALLEN -/
+theorem step_signing (s : State) (op : C05.Op) (h : HInv s) (sid : Nat) (sg : Sig) (hs : s.signings sid = some sg) :
+    ∃ sg', (C05.apply s op).signings sid = some sg' ∧
+      (sg' = sg ∨
+       (sg.status = stWaiting ∧ sid ∈ s.pending ∧ (∃ c ht n, op = .endBlock c ht n) ∧ sg' = { sg with status := stSuccess }) ∨
+       (sg.status = stWaiting ∧ Retried sg sg')) := by
+  have hle : sid ≠ s.count + 1 := by
+    intro e
+    rw [h.h4 sid (by omega)] at hs; cases hs
+  cases op with
+  | submitDE m k =>
+    refine ⟨sg, ?_, Or.inl rfl⟩
+    simp only [C05.apply, enqueue]; split <;> exact hs
+  | resetDE m => exact ⟨sg, hs, Or.inl rfl⟩
+  | request a b c d e => exact ⟨sg, by simp only [C05.apply]; rw [request_signings_other s a b c d e sid hle]; exact hs, Or.inl rfl⟩
+  | submit a b c d => exact ⟨sg, by simp only [C05.apply]; rw [submit_keeps_status]; exact hs, Or.inl rfl⟩
+  | endBlock c ht n =>
+    obtain ⟨sg', q1, q2⟩ := endBlock_signing s c ht n h sid sg hs
+    refine ⟨sg', q1, ?_⟩
+    rcases q2 with ⟨a, b, e⟩ | ⟨_, e⟩ | ⟨_, b, e⟩
+    · exact Or.inr (Or.inl ⟨b, a, ⟨c, ht, n, rfl⟩, e⟩)
+    · exact Or.inl e
+    · exact Or.inr (Or.inr ⟨b, e⟩)
+  | activate m n =>
+    refine ⟨sg, ?_, Or.inl rfl⟩
+    simp only [C05.apply, activate]
+    split
+    · exact hs
+    · split
+      · exact hs
+      · split <;> exact hs
+  | setParams p a d f => exact ⟨sg, hs, Or.inl rfl⟩
+
+/-- PROPERTY (the status never leaves SUCCESS or FALLEN; the record is frozen): over EVERY history -/
+theorem final_status_absorbing (ops : List C05.Op) (s : State) (h : HInv s) (ok : ∀ op ∈ ops, OpOk op) (sid : Nat) (sg : Sig)
+    (hs : s.signings sid = some sg) (hf : sg.status ≠ stWaiting) : (ops.foldl C05.apply s).signings sid = some sg := by
+  induction ops generalizing s with
+  | nil => exact hs
+  | cons op rest ih =>
+    obtain ⟨sg', q1, q2⟩ := step_signing s op h sid sg hs
+    have : sg' = sg := by
+      rcases q2 with e | ⟨w, _⟩ | ⟨w, _⟩
+      · exact e
+      · exact absurd w hf
+      · exact absurd w hf
+    subst this
+    exact ih _ (step_hinv s op h (ok op (List.mem_cons_self ..))) (fun o ho => ok o (List.mem_cons_of_mem _ ho)) q1
+
+/-- PROPERTY (the attempt number only grows, by at most one per operation): over EVERY history -/
+theorem attempt_only_grows (ops : List C05.Op) (s : State) (h : HInv s) (ok : ∀ op ∈ ops, OpOk op) (sid : Nat) (sg : Sig)
+    (hs : s.signings sid = some sg) :
+    ∃ sg', (ops.foldl C05.apply s).signings sid = some sg' ∧ sg.attempt ≤ sg'.attempt ∧ sg'.attempt ≤ sg.attempt + ops.length := by
+  induction ops generalizing s sg with
+  | nil => exact ⟨sg, hs, Nat.le_refl _, Nat.le_refl _⟩
+  | cons op rest ih =>
+    obtain ⟨sg1, q1, q2⟩ := step_signing s op h sid sg hs
+    obtain ⟨sg', r1, r2, r3⟩ := ih _ (step_hinv s op h (ok op (List.mem_cons_self ..))) (fun o ho => ok o (List.mem_cons_of_mem _ ho)) sg1 q1
+    have : sg.attempt ≤ sg1.attempt ∧ sg1.attempt ≤ sg.attempt + 1 := by
+      rcases q2 with e | ⟨_, _, _, e⟩ | ⟨_, e⟩
+      · subst e; omega
+      · subst e; simp
+      · rcases e with ⟨e, _⟩ | ⟨e, _⟩ <;> omega
+    refine ⟨sg', r1, by omega, by simp only [List.length_cons]; omega⟩
+
+/-- PROPERTY (SUCCESS only when every assigned member of the attempt has submitted): a WAITING signing becomes SUCCESS
+    only in an end-block, and only if it was pending, i.e. its current attempt had a complete partial-signature set from
+    distinct assigned members -/
+theorem success_only_by_aggregating_a_complete_set (s : State) (op : C05.Op) (h : HInv s) (sid : Nat) (sg sg' : Sig)
+    (hs : s.signings sid = some sg) (hw : sg.status = stWaiting) (hs' : (C05.apply s op).signings sid = some sg') (hsucc : sg'.status = stSuccess) :
+    (∃ c ht n, op = .endBlock c ht n) ∧ ∃ atm, s.attempts sid sg.attempt = some atm ∧ (s.partials sid sg.attempt).length = atm.assigned.length ∧
+      (∀ m ∈ s.partials sid sg.attempt, m ∈ ids atm) ∧ (s.partials sid sg.attempt).Nodup := by
+  obtain ⟨sg1, q1, q2⟩ := step_signing s op h sid sg hs
+  rw [hs'] at q1; cases q1
+  rcases q2 with e | ⟨_, hp, hop, _⟩ | ⟨_, e⟩
+  · subst e; rw [hw] at hsucc; simp [stWaiting, stSuccess] at hsucc
+  · obtain ⟨sg0, atm, r1, _, r3, r4⟩ := h.h3 sid hp
+    rw [hs] at r1; cases r1
+    obtain ⟨p1, p2, _⟩ := h.p1 sid sg.attempt atm r3
+    exact ⟨hop, atm, r3, r4, p1, p2⟩
+  · rcases e with ⟨_, e⟩ | ⟨_, e⟩ <;> rw [e] at hsucc <;> simp [stWaiting, stSuccess, stFallen] at hsucc
+
+/-- PROPERTY (all assigned members submitted ⇒ SUCCESS at the next end-block): in every reachable state -/
+theorem complete_set_succeeds_at_next_endblock (s : State) (h : HInv s) (sid : Nat) (sg : Sig) (atm : Attempt)
+    (hs : s.signings sid = some sg) (hw : sg.status = stWaiting) (ha : s.attempts sid sg.attempt = some atm) (hne : atm.assigned ≠ [])
+    (hfull : (s.partials sid sg.attempt).length = atm.assigned.length) (c : Nat → List Nat) (ht n : Int) :
+    (endBlock s c ht n).signings sid = some { sg with status := stSuccess } := by
+  have hp := h.h6 sid sg atm hs hw ha hne hfull
+  obtain ⟨sg', q1, q2⟩ := endBlock_signing s c ht n h sid sg hs
+  rcases q2 with ⟨_, _, e⟩ | ⟨np, _⟩ | ⟨np, _⟩
+  · rw [q1, e]
+  · exact absurd hp np
+  · exact absurd hp np
+
+
+/-- PROPERTY (an attempt is never timed out before its signing period has passed, and is timed out exactly then): in the
+    end-block of ANY reachable state the expiry pass processes a prefix of the FIFO all of whose attempts have
+    `expiredHeight ≤ height`, and stops at the end or at the first attempt that has not expired -/
+theorem expiry_pass_processes_exactly_the_expired_prefix (s : State) (h : HInv s) (height nowNs : Int) :
+    let s2 : State := { aggregateAll s s.pending with pending := [] }
+    consumed height nowNs s2.expirations s2 ≤ s2.expirations.length ∧
+    (∀ i a, (i, a) ∈ s2.expirations.take (consumed height nowNs s2.expirations s2) → ∃ atm, s2.attempts i a = some atm ∧ atm.expiredHeight ≤ height) ∧
+    (∀ i a, s2.expirations[consumed height nowNs s2.expirations s2]? = some (i, a) → ∃ atm, s2.attempts i a = some atm ∧ atm.expiredHeight > height) :=
+  expire_consumes_exactly_expired_prefix _ (aggregated_hinv s h) height nowNs
+
+/-- … so with a FIFO ordered by expiry height (which holds while SigningPeriod is unchanged and block heights do not
+    decrease) every attempt whose period has passed is processed in this very block -/
+theorem every_expired_attempt_is_processed (s : State) (h : HInv s) (height nowNs : Int)
+    (hsorted : s.expirations.Pairwise (fun x y => ∀ ax ay, s.attempts x.1 x.2 = some ax → s.attempts y.1 y.2 = some ay → ax.expiredHeight ≤ ay.expiredHeight))
+    (i a : Nat) (atm : Attempt) (hm : (i, a) ∈ s.expirations) (ha : s.attempts i a = some atm) (hexp : atm.expiredHeight ≤ height) :
+    let s2 : State := { aggregateAll s s.pending with pending := [] }
+    (i, a) ∈ s2.expirations.take (consumed height nowNs s2.expirations s2) := by
+  obtain ⟨a1, _, a3, _, _, _⟩ := aggregateAll_core s.pending s
+  exact all_expired_consumed _ (aggregated_hinv s h) height nowNs (by simp only [a1, a3]; exact hsorted) i a atm (by simp only [a3]; exact hm)
+    (by simp only [a1]; exact ha) hexp
+
+/-- the empty chain state satisfies the invariant (so every history from genesis is covered) -/
+theorem hinv_demo : HInv demo := by
+  refine ⟨?_, ?_, ?_, ?_, ?_, ?_, ?_, ?_⟩ <;> simp [demo] <;> omega
+
+/-- a complete set is aggregated by the next end-block; an idle attempt times out at its expiry height and is retried -/
+example : (endBlock (submit (initiate demo 1 [1] 10).1 1 1 true true).1 (fun _ => [2]) 11 0).signings 1 = some ⟨stSuccess, 1⟩ := by decide
+example : (endBlock (initiate demo 1 [1] 10).1 (fun _ => [2]) 12 0).signings 1 = some ⟨stWaiting, 2⟩ := by decide
+example : (endBlock (initiate demo 1 [1] 10).1 (fun _ => [2]) 11 0).signings 1 = some ⟨stWaiting, 1⟩ := by decide
 
 end C10
